@@ -241,6 +241,7 @@ def corr_rotH(run, cases, rotors, preps, poison=0.0):
     import quaternionic
     h = helpers()
     b = Batch(run, "rotate-Horner")
+    b2 = Batch(run, "rotate-Horner-generated-kernel")
     for (L, s, eM, f) in cases:
         w = spherical.Wigner(L)
         modes = spherical.Modes(np.array(f, dtype=complex), spin_weight=s, ell_min=0, ell_max=eM)
@@ -255,7 +256,9 @@ def corr_rotH(run, cases, rotors, preps, poison=0.0):
             pws = [h["cpowi"](np.complex128(p["z"][2]), m) for m in range(-eM, eM + 1)]
             b.add(f"rotH {L} {s} {eM} {' '.join(fbits(x) for x in R)} {fbits(poison)} " + cx_tokens(pws) + " " + cx_tokens(fa),
                   arr_bits(v), {"L": L, "s": s, "ell_max_modes": eM, "R": R, "stratum": lab}, f"{lab}|s|={abs(s)}" if abs(s) >= 3 else lab)
-    return b.flush()
+            b2.add(f"genrotH {L} {s} {eM} {' '.join(fbits(x) for x in R)} {fbits(poison)} " + cx_tokens(pws) + " " + cx_tokens(fa),
+                   arr_bits(v), {"L": L, "s": s, "ell_max_modes": eM, "R": R, "stratum": lab, "model": "generated"}, f"{lab}|s|={abs(s)}" if abs(s) >= 3 else lab)
+    return b.flush() + b2.flush()
 
 
 def corr_w3j(run, cases, poison=3.5):
